@@ -254,7 +254,7 @@ class GraphMachine(MarkupMachine):
         for model in self.models:
             model.get_graph(force_new=True)
 
-    def add_transition(self, trigger, source, dest, conditions=None, unless=None, before=None, after=None,
+    def add_transition(self, trigger, source, dest=None, conditions=None, unless=None, before=None, after=None,
                        prepare=None, **kwargs):
         """Calls the base method and regenerates all models's graphs."""
         super(GraphMachine, self).add_transition(trigger, source, dest, conditions=conditions, unless=unless,
